@@ -65,36 +65,47 @@ Theorem C02_sqlite_laws : refl_laws sqlite_driver /\ sim_laws sqlite_driver sqli
 Proof. exact (conj sqlite_refl_laws sqlite_sim_laws). Qed.
 
 (** 1e. "the diff with a deep copy is empty" at full strength (only the generic
-    well-formedness) is FALSE for the SQLite differ.  The model has no pointers, so
+    well-formedness) is still FALSE for the SQLite differ, after the fixes of
+    FindGeneratedIndex (99ad7b6) and Normalize (5832478).  The model has no pointers, so
     [SchemaDiff D skip s s] is the diff of [s] with a field-wise equal copy.
-    Witness 1: the inspected autoindex of a UNIQUE constraint (origin "u") is dropped
-    and re-added under its normalized name.  Reproduced on the Go code (harness class
-    "witness", known finding C02-sqlite-autoindex-copy-not-empty) and through the CLI:
-    [atlas schema diff --from sqlite://y.db --to sqlite://y.db] on a database created
-    with [CREATE TABLE t (c int UNIQUE)] plans DROP INDEX / CREATE UNIQUE INDEX.
-    (With the very same Go graph on both sides the diff IS empty, because Normalize
-    renames the shared index object on "both" sides at once.) *)
+    Witness: the autoindex of a UNIQUE column (origin "u") next to a user index that
+    already carries the normalized name t_c: Normalize gives the desired side two indexes
+    called t_c and the user's index is compared with the renamed autoindex (ChangeUnique).
+    Reproduced on the Go code (harness class "witness", known finding
+    C02-sqlite-autoindex-name-collision) and through the CLI:
+    [CREATE TABLE t (c int UNIQUE); CREATE INDEX t_c ON t(c)], then
+    [atlas schema diff --from sqlite://w6.db --to sqlite://w6.db] plans a rebuild of t. *)
 Theorem C02_copy_empty_refuted :
   exists s, NoDup (map t_name (s_tables s)) /\ (forall t, In t (s_tables s) -> wf_table t) /\
             SchemaDiff sqlite_driver no_skip s s <> Some [].
 Proof.
-  exists w_schema1. split; [repeat constructor; simpl; tauto|]. split.
-  - intros t [<-|[]]. exact w_table1_wf.
-  - rewrite w_schema1_diff. discriminate.
+  exists w_schema6. split; [repeat constructor; simpl; tauto|]. split.
+  - intros t [<-|[]]. exact w_table6_wf.
+  - rewrite w_schema6_diff. discriminate.
 Qed.
 
-(** Witness 2: two foreign keys of the same shape with different symbols yield an
-    AddForeignKey (the inner loop of Normalize has no break).  Reproduced on the Go code
-    and through the CLI (known finding C02-sqlite-same-shape-fks-copy-not-empty). *)
-Theorem C02_copy_empty_refuted_fk :
-  exists s, NoDup (map t_name (s_tables s)) /\ (forall t, In t (s_tables s) -> wf_table t) /\
-            (forall t, In t (s_tables s) -> idx_norm_stable (t_idx t)) /\
-            SchemaDiff sqlite_driver no_skip s s <> Some [].
+(** The two former witnesses (fixed upstream of this model) are now empty: the inspected
+    autoindex alone, and two foreign keys of the same shape in the same order. *)
+Theorem C02_copy_empty_fixed :
+  SchemaDiff sqlite_driver no_skip w_schema1 w_schema1 = Some [] /\
+  SchemaDiff sqlite_driver no_skip w_schema2 w_schema2 = Some [].
+Proof. exact (conj w_schema1_diff w_schema2_diff). Qed.
+
+(** "... or with the same objects listed in another order is empty" is FALSE for SQLite:
+    two foreign keys of the same shape with different ON DELETE, listed in the other order,
+    are paired crosswise by Normalize (first unused match by shape) and both come out as
+    ModifyForeignKey.  Reproduced on the Go code (known finding
+    C02-sqlite-same-shape-fks-reordered). *)
+Theorem C02_perm_empty_refuted_fk :
+  exists s s', NoDup (map t_name (s_tables s)) /\ (forall t, In t (s_tables s) -> wf_table t) /\
+               (forall t, In t (s_tables s) -> idx_norm_stable (t_idx t)) /\
+               schema_perm s s' /\ SchemaDiff sqlite_driver no_skip s s' <> Some [].
 Proof.
-  exists w_schema2. split; [repeat constructor; simpl; tauto|]. split; [|split].
-  - intros t [<-|[]]. exact w_table2_wf.
+  exists w_schema3, w_schema3p. split; [repeat constructor; simpl; tauto|]. split; [|split; [|split]].
+  - intros t [<-|[]]. exact w_table3_wf.
   - intros t [<-|[]] i [].
-  - rewrite w_schema2_diff. discriminate.
+  - exact w_schema3_perm.
+  - rewrite w_schema3_diff. discriminate.
 Qed.
 
 (** 1f. What does hold for SQLite (self, copy and every permutation). *)
@@ -342,6 +353,21 @@ Proof.
   split; [reflexivity|]. split; [reflexivity|]. split; [discriminate|]. exact w_udt_unreported.
 Qed.
 
+(** ... what holds for user-defined types (since fix 0a2c2ef): with a schema scope ns (a
+    connection whose URL carries a search_path) the change is reported exactly when the names
+    differ after the "ns." / "\"ns\"." qualifier is cut off.  Without a scope (DefaultDiff,
+    realm connections) it is never reported: the narrowed known finding. *)
+Theorem C02_postgres_udt_type_except :
+  forall ns c c', ns <> [] -> c_class c = PG_UDT -> c_class c' = PG_UDT ->
+  pg_type_changed_ns ns c c' =
+  Some (negb (str_eqb (trim_schema ns (fld 0 (c_T c'))) (trim_schema ns (fld 0 (c_T c))))).
+Proof. exact pg_udt_type_changed_ns. Qed.
+
+(** the laws hold for every schema scope *)
+Theorem C02_postgres_ns_laws :
+  forall ns, refl_laws (pg_driver_ns ns) /\ sim_laws (pg_driver_ns ns) pg_dwf.
+Proof. exact (fun ns => conj (pg_refl_laws_ns ns) (pg_sim_laws_ns ns)). Qed.
+
 (** 4f. ... what holds: in every other known class except arrays the type bit is set exactly
     when the class or the type identity differs, and ColumnChange is the union of its six bits. *)
 Theorem C02_postgres_column_bits_except :
@@ -358,7 +384,7 @@ Theorem C02_postgres_column_bits_except :
           (bit gc ChangeGenerated)).
 Proof.
   intros t c c' gc H H' K U A G.
-  exact (pg_column_bits t c c' _ gc (pg_type_changed_exact c c' H H' K U A) G).
+  exact (pg_column_bits [] t c c' _ gc (pg_type_changed_exact [] c c' H H' K U A) G).
 Qed.
 
 (** 4g. When is the side condition of 2b met: a driver without FindGeneratedIndex (MySQL,
@@ -445,6 +471,11 @@ Example C02_ex_mysql_bits :
   pg_column_change x_t x_b x_b' = Some (N.lor ChangeNull ChangeDefault) /\
   sqlite_column_change x_t x_b x_b' = Some (N.lor ChangeNull ChangeDefault).
 Proof. repeat split; vm_compute; reflexivity. Qed.
+Example C02_ex_udt_scope :
+  pg_column_change_ns PUBLIC x_t (w_udt_col [99;105;116;101;120;116]%N) (w_udt_col [108;116;114;101;101]%N) = Some ChangeType /\
+  pg_column_change_ns PUBLIC x_t (w_udt_col [99;105;116;101;120;116]%N)
+     (w_udt_col [112;117;98;108;105;99;46;99;105;116;101;120;116]%N) = Some 0%N.
+Proof. split; vm_compute; reflexivity. Qed.
 Example C02_ex_no_similar : similar_unnamed_index mysql_driver x_t' x_i1 = None.
 Proof. vm_compute. reflexivity. Qed.
 
@@ -453,7 +484,8 @@ Print Assumptions C02_copy_empty.
 Print Assumptions C02_perm_empty.
 Print Assumptions C02_sqlite_laws.
 Print Assumptions C02_copy_empty_refuted.
-Print Assumptions C02_copy_empty_refuted_fk.
+Print Assumptions C02_copy_empty_fixed.
+Print Assumptions C02_perm_empty_refuted_fk.
 Print Assumptions C02_copy_empty_except.
 Print Assumptions C02_exact_columns.
 Print Assumptions C02_exact_indexes_partial.
@@ -474,3 +506,5 @@ Print Assumptions C02_mysql_bool_default_except.
 Print Assumptions C02_postgres_udt_type_refuted.
 Print Assumptions C02_postgres_column_bits_except.
 Print Assumptions C02_no_similar_index.
+Print Assumptions C02_postgres_udt_type_except.
+Print Assumptions C02_postgres_ns_laws.
